@@ -391,6 +391,22 @@ func harnesses(r *fw.Run) []fw.HarnessSpec {
 		w, err := (&te.B{}).Addr(a).Cell()
 		if err == nil {
 			compare(c, fmt.Sprintf("MsgAddress(kind %d)", a.Kind), addrToTongo(a), w)
+			// a bit string that has been read from (by a consumer inspecting the address) is still the same value:
+			// the encoding must not depend on its read cursor
+			if ma := addrToTongo(a); (a.Kind == 1 && ma.AddrExtern != nil) || (a.Kind == 3 && ma.AddrVar != nil) {
+				bs := ma.AddrExtern
+				if a.Kind == 3 {
+					bs = &ma.AddrVar.Address
+				}
+				for _, k := range []int{1, len(a.Bits) / 2, len(a.Bits)} {
+					if k <= 0 || k > len(a.Bits) {
+						continue
+					}
+					bs.ResetCounter()
+					_, _ = bs.ReadBits(k)
+					compare(c, fmt.Sprintf("MsgAddress(kind %d) after reading %d of its bits", a.Kind, k), ma, w)
+				}
+			}
 		}
 	})
 
